@@ -1,6 +1,6 @@
 """library contracts (tier A): special iterator kinds, `with open(...)`, itertools / collections"""
 from .smt import T, TRUE, FALSE, I, NOT, AND, OR, EQ, CMP, ADD, ITE
-from .sym import Num, Bool, Opaque, Ref, IterCell, NONE
+from .sym import Num, Bool, Opaque, Ref, IterCell, NONE, View
 
 
 def U(msg):
@@ -8,8 +8,156 @@ def U(msg):
     return Unsupported(msg)
 
 
+# --------------------------------------------------------------------------- ghost file system
+# $fs : (Array Key FOpt),  FOpt = fnone | fsome(content: Lst_V).  A pickle stream is the list of the dumped values; a
+# text file is a one-element list holding its text.  open / pickle / os.* are library contracts (tier A) over it.
+FS_SORT = "(Array Key FOpt)"
+
+
+def need_fs(reg):
+    reg.need_val()
+    lv = reg.lst("V")
+    if "FOpt" not in reg.sorts:
+        reg.sorts.add("FOpt")
+        reg.sorts.add(FS_SORT)
+        reg.sort_decls.append("(declare-datatypes ((FOpt 0)) (((fnone) (fsome (fcontent %s)))))" % lv)
+    return lv
+
+
+def fs_init(ip, st):
+    lv = need_fs(ip.reg)
+    fs = ip.reg.new("fs", FS_SORT)
+    st.notes["$fs"] = fs
+    q = "fp%d" % next(ip.bound)
+    # well-formedness: every stored content is a list (length >= 0)
+    st.assume(T("(forall ((%s Key)) (! (>= (len_%s (fcontent (select %s %s))) 0) :pattern ((select %s %s))))"
+                % (q, lv, fs.s, q, fs.s, q), "Bool"))
+
+
+def fs_get(ip, st):
+    if "$fs" not in st.notes:
+        raise U("file system access in a function whose contract has no ghost fs")
+    return st.notes["$fs"]
+
+
+def fs_entry_term(ip, st, path):
+    return T("(select %s %s)" % (fs_get(ip, st).s, ip.key_term(path).s), "FOpt")
+
+
+def fs_store(ip, st, path, fopt_s):
+    st.notes["$fs"] = T("(store %s %s %s)" % (fs_get(ip, st).s, ip.key_term(path).s, fopt_s), FS_SORT)
+
+
+def os_error(ip, st, cond, tag):
+    """fork: the operation fails with OSError when cond holds"""
+    if cond.s == "false":
+        return
+    bad = st.fork(cond, tag)
+    if ip.may_catch(bad, "OSError"):
+        ip.raise_(bad, "OSError")
+    else:
+        ip.emit("safety", "no-OSError", bad, FALSE)
+    st.assume(NOT(cond))
+
+
+def lib_open(ip, st, pos, kws):
+    from .sym import ObjCell, Str
+    lv = need_fs(ip.reg)
+    path = pos[0]
+    mode = pos[1].s if len(pos) > 1 and isinstance(pos[1], Str) else "r"
+    ip.assumptions.add("library contract (tier A): open / pickle.dump / pickle.load / os.replace / os.remove / os.access act on "
+                       "the ghost file system (a pickle file is the sequence of dumped values; write modes truncate)")
+    if mode.startswith("w"):
+        empty = ip.reg.new("emptyfile", lv)
+        st.assume(EQ(ip.reg.l_len(empty), I(0)))
+        fs_store(ip, st, path, "(fsome %s)" % empty.s)
+    elif mode.startswith("r"):
+        ent = fs_entry_term(ip, st, path)
+        os_error(ip, st, EQ(ent, T("fnone", "FOpt")), "nofile.")
+    else:
+        raise U("open mode " + mode)
+    f = ip.new_cell(st, ObjCell("$file", {"path": path if not isinstance(path, Str) else Opaque(ip.reg.key(path.s)),
+                                          "pos": Num(I(0))}))
+    return [(st, f)]
+
+
+def _file(ip, st, f):
+    from .sym import ObjCell
+    if isinstance(f, Ref) and isinstance(st.heap[f.cid], ObjCell) and st.heap[f.cid].cls == "$file":
+        return st.heap[f.cid]
+    raise U("file object expected, got %r" % (f,))
+
+
+def lib_pickle_dump(ip, st, pos, kws):
+    from .builtins_ import elem_term
+    lv = need_fs(ip.reg)
+    fc = _file(ip, st, pos[1])
+    path = fc.fields["path"]
+    cur = T("(fcontent %s)" % fs_entry_term(ip, st, path).s, lv)
+    v = elem_term(ip, st, ip.to_yield_value(st, pos[0]), "V")
+    fs_store(ip, st, path, "(fsome %s)" % ip.reg.l_append(cur, v).s)
+    return [(st, NONE)]
+
+
+def lib_pickle_load(ip, st, pos, kws):
+    from .sym import ObjCell
+    lv = need_fs(ip.reg)
+    f = pos[0]
+    fc = _file(ip, st, f)
+    path, p = fc.fields["path"], fc.fields["pos"].t
+    cur = T("(fcontent %s)" % fs_entry_term(ip, st, path).s, lv)
+    has = CMP("<", p, ip.reg.l_len(cur))
+    outs = []
+    ex = st.fork(NOT(has), "eof.")
+    if ip.may_catch(ex, "EOFError"):
+        ip.raise_(ex, "EOFError")
+    else:
+        ip.emit("safety", "load-before-eof", ex, FALSE)
+    ok = st.fork(has, "ld.")
+    ok.heap[f.cid] = ObjCell("$file", {"path": path, "pos": Num(ADD(p, I(1)))})
+    outs.append((ok, Opaque(ip.reg.l_get(cur, p))))
+    return outs
+
+
+def lib_os_replace(ip, st, pos, kws):
+    need_fs(ip.reg)
+    src, dst = pos
+    ent = fs_entry_term(ip, st, src)
+    os_error(ip, st, EQ(ent, T("fnone", "FOpt")), "nosrc.")
+    fs_store(ip, st, dst, ent.s)
+    fs_store(ip, st, src, "fnone")
+    return [(st, NONE)]
+
+
+def lib_os_remove(ip, st, pos, kws):
+    need_fs(ip.reg)
+    ent = fs_entry_term(ip, st, pos[0])
+    os_error(ip, st, EQ(ent, T("fnone", "FOpt")), "nofile.")
+    fs_store(ip, st, pos[0], "fnone")
+    return [(st, NONE)]
+
+
+def lib_os_access(ip, st, pos, kws):
+    need_fs(ip.reg)
+    ent = fs_entry_term(ip, st, pos[0])
+    return [(st, Bool(NOT(EQ(ent, T("fnone", "FOpt")))))]
+
+
 def with_enter(ip, s, st):
-    raise U("with statement")
+    """with <expr> as <name>: body -- for file objects of the ghost file system (closing has no ghost effect)"""
+    from .stmts import exec_block, assign_to
+    if len(s.items) != 1:
+        raise U("with several items")
+    item = s.items[0]
+    outs = []
+    for s2, v in ip.ev(item.context_expr, st):
+        _file(ip, s2, v)
+        states = [s2]
+        if item.optional_vars is not None:
+            states = assign_to(ip, item.optional_vars, v, s2)
+        for s3 in states:
+            outs += exec_block(ip, s.body, s3)
+    return outs
 
 
 def copy_special(cell, **kw):
@@ -72,7 +220,33 @@ def _deep(ip, st, v):
     return v
 
 
-LIB = {("copy", "deepcopy"): lib_deepcopy, "deepcopy": lib_deepcopy}
+LIB = {("copy", "deepcopy"): lib_deepcopy, "deepcopy": lib_deepcopy,
+       ("pickle", "dump"): lib_pickle_dump, "pickle.dump": lib_pickle_dump,
+       ("pickle", "load"): lib_pickle_load, "pickle.load": lib_pickle_load,
+       ("os", "replace"): lib_os_replace, ("os", "rename"): lib_os_replace, ("os", "remove"): lib_os_remove,
+       ("os", "access"): lib_os_access}
+
+
+# ---- special forms of the contract language over the ghost file system
+def _sf_fs_exists(ip, e, st):
+    return Bool(NOT(EQ(fs_entry_term(ip, st, ip.ev1(e.args[0], st)), T("fnone", "FOpt"))))
+
+
+def _sf_fs_content(ip, e, st):
+    lv = need_fs(ip.reg)
+    return ip.lst_view(T("(fcontent %s)" % fs_entry_term(ip, st, ip.ev1(e.args[0], st)).s, lv))
+
+
+def _sf_fs_entry(ip, e, st):
+    return Opaque(fs_entry_term(ip, st, ip.ev1(e.args[0], st)))
+
+
+def _sf_fs_all(ip, e, st):
+    """fs(): the whole ghost file system (for `fs() == old(fs())`: nothing on disk changed)"""
+    return Opaque(fs_get(ip, st))
+
+
+FS_FORMS = {"fs_exists": _sf_fs_exists, "fs_content": _sf_fs_content, "fs_entry": _sf_fs_entry, "fs": _sf_fs_all}
 
 
 def register(ix):
